@@ -824,6 +824,28 @@ class PX:
                 return self._with_generator(fval, target, args, kwargs, item, run_body, fr, st, text)
         # generic context manager
         args, kwargs = self.ev_args(ce, fr) if isinstance(ce, ast.Call) else ((), {})
+        if text.endswith("timeout_at") and len(args) == 1 and not kwargs:
+            # timeout_at(loop.time() + x) is timeout(x): an absolute deadline computed from the loop's clock at this very point
+            rel = None
+            a0 = ce.args[0] if isinstance(ce, ast.Call) and ce.args else None
+            if isinstance(a0, ast.BinOp) and isinstance(a0.op, ast.Add):
+                for clock, other in ((a0.left, a0.right), (a0.right, a0.left)):
+                    if isinstance(clock, ast.Call) and isinstance(clock.func, ast.Attribute) and clock.func.attr == "time" and not clock.args:
+                        rel = self.ev(other, fr)
+            if rel is None and isinstance(args[0], Sym):
+                import re as _re
+
+                m_ = _re.fullmatch(r"\((?:\S*\.)?time#\d+ \+ (.+)\)", args[0].tag) or _re.fullmatch(r"\((.+) \+ (?:\S*\.)?time#\d+\)", args[0].tag)
+                if m_:
+                    try:
+                        rel = float(m_.group(1)) if "." in m_.group(1) else int(m_.group(1))
+                    except ValueError:
+                        rel = Sym(m_.group(1))
+            if rel is not None:
+                text = text[: -len("timeout_at")] + "timeout"
+                if text in ("timeout", "asyncio_timeout", "asyncio.timeout") or text.endswith((".timeout", "_timeout")):
+                    text = "asyncio_timeout" if not text.endswith("asyncio.timeout") else text
+                args = (rel,)
         if not isinstance(ce, ast.Call):
             self.ev(ce, fr)
         model = self.model_for("with:" + text)
@@ -1559,6 +1581,10 @@ class PX:
         raise Unsupported(f"compare op {type(op).__name__}")
 
     def e_Subscript(self, e, fr):
+        if isinstance(e.ctx, ast.Load) and not isinstance(e.slice, ast.Slice):
+            m_ = self.model_for("item:" + _text(e))
+            if m_ is not None and callable(m_) and not isinstance(m_, Outcomes):
+                return m_(self, _text(e), [], {}, fr)  # a rule gives this lookup (a configuration value) a concrete answer
         b = self.ev(e.value, fr)
         if isinstance(e.slice, ast.Slice):
             lo = self.ev(e.slice.lower, fr) if e.slice.lower else None
@@ -1728,6 +1754,12 @@ class PX:
 
     def e_Await(self, e, fr):
         inner = e.value
+        if isinstance(inner, ast.Call) and _text(inner.func) == "asyncio.shield" and len(inner.args) == 1 and not inner.keywords \
+                and not isinstance(inner.args[0], ast.Call) and self.model_for("asyncio.shield") is None:
+            # awaiting shield(fut) of an existing future / task is awaiting fut as far as results, exceptions and time-outs go (the
+            # difference - fut survives the waiter's cancellation - is not visible on the waiter's paths); rules that care about the
+            # shield itself (R01.1) model it
+            inner = inner.args[0]
         if isinstance(inner, ast.Call):
             return self.e_Call(inner, fr, awaited=True)
         v = self.ev(inner, fr)
@@ -1791,6 +1823,27 @@ class PX:
                 m = self.model_for(text) or self.model_for("*.isEnabledFor")
                 return bool(m(self, text, [], {}, fr)) if callable(m) and not isinstance(m, Outcomes) else False
             return None
+        # lock-style use of a semaphore / lock attribute: ``await X.acquire()`` ... ``X.release()`` in the same function is the
+        # explicit spelling of ``async with X`` - the same enter / exit events, so that rules see one form
+        if isinstance(e.func, ast.Attribute) and e.func.attr in ("acquire", "release") and not e.args and not e.keywords \
+                and _text(e.func.value).startswith("self.") and self.model_for(text) is None:
+            recv = _text(e.func.value)
+            fnode = getattr(getattr(fr, "func", None), "node", None)
+            paired = fnode is not None and {"acquire", "release"} <= {c.func.attr for c in ast.walk(fnode) if isinstance(c, ast.Call)
+                                                                       and isinstance(c.func, ast.Attribute) and _text(c.func.value) == recv}
+            if paired and awaited and e.func.attr == "acquire":
+                self.epoch += 1
+                if self.cancel and self.choose(2, f"cancel@enter {recv}"):
+                    self.emit("cancelled", "enter " + recv, node=e, frame=fr)
+                    raise Exc("CancelledError", origin="enter " + recv)
+                self.emit("enter", recv, (), {}, node=e, frame=fr)
+                self.ctxstack = self.ctxstack + [recv]
+                return True
+            if paired and not awaited and e.func.attr == "release" and recv in self.ctxstack:
+                i = len(self.ctxstack) - 1 - self.ctxstack[::-1].index(recv)
+                self.ctxstack = self.ctxstack[:i] + self.ctxstack[i + 1:]
+                self.emit("exit", recv, node=e, frame=fr)
+                return None
         # super().method(...)
         if isinstance(e.func, ast.Attribute) and isinstance(e.func.value, ast.Call) and _text(e.func.value.func) == "super":
             args, kw = self.ev_args(e, fr)
